@@ -403,9 +403,23 @@ func runC26(c *Ctx) {
 			Edge("position-from-last-seek", fieldBool(useF, false)).
 			Edge("position-from-last-seek", fieldBool(lastM, true)).
 			After("position-from-last-seek", disable)
+		// the other way the flag is acted on: an early "already exhausted" return taken because
+		// TrySeekUsingNext is set
+		fl.Edge("acting-on-try-seek-using-next", func(v ssa.Value) (bool, bool) {
+			call, ok := v.(*ssa.Call)
+			return ok && infoOfCommon(call.Common()).Short == "TrySeekUsingNext", false
+		}).KillAfter("acting-on-try-seek-using-next", disable)
 		fl.MaxDepth = 0
 		res := fl.Analyze(fn, emptyState())
 		c.noteFlow(fl)
+		res.At(AnyReturn, func(in ssa.Instruction, s State) {
+			if !s.Reachable() || !s.has("acting-on-try-seek-using-next") {
+				return
+			}
+			ok := s.has("position-from-last-seek")
+			c.Ob("C26.T1", fn, "an early return taken because TrySeekUsingNext is set relies on a position the last prefix seek established", c.P.Pos(in.Pos()), ok,
+				map[bool]string{true: "", false: "this return is reached on the TrySeekUsingNext()==true edge also after a filter miss, when the iterator was not positioned by the last seek (state " + s.String() + ")"}[ok])
+		})
 		if n := c.Require("C26.T1", res, onward, "the seek flags are passed on only if the filter is unused, the last prefix seek passed it, or TrySeekUsingNext was cleared", []string{"position-from-last-seek"}); n == 0 {
 			c.Unresolved("C26.T1", "no call passing the seek flags onward found in "+name)
 		}
